@@ -208,13 +208,19 @@ example : ∃ fuel₀, ∀ fuel, fuel₀ ≤ fuel →
   for ALL such functions: any size, any nesting of loops and branches, any number of variables (up to
   the stack bound), all in-range arguments, any fuel of the C execution. -/
 
+/-- Functions without `switch` (the `switch` statement is in the model and in the tie; its simulation
+    is the next stage). -/
+def NoSwitch (f : CSem2.Func) : Prop := LowerMach2.noSwitch f.body = true
+
+instance (f : CSem2.Func) : Decidable (NoSwitch f) := by unfold NoSwitch; exact inferInstance
+
 /-- **Semantic preservation for 𝔽₂** (in any program that contains the emitted function and starts with
     an empty stack): if the C execution of the body on the arguments `ρ` reaches `return` with value `v`
     within some fuel, without undefined behaviour, then the emitted IL, run on representations of `ρ`,
     returns a representation of `v` for every sufficiently large fuel — it does not get stuck, trap,
     touch memory outside its own slots, or produce output. -/
 theorem lower2_correct_in (cs : Bool) (startid : Nat) (f : CSem2.Func) (ρ : List Int) (v : Int)
-    (hwt : CSem2.WT f) (henv : EnvOK cs f.params ρ)
+    (hwt : CSem2.WT f) (hns : NoSwitch f) (henv : EnvOK cs f.params ρ)
     (hsmall : f.params.length + f.locals.length ≤ 1000000)
     (cfuel : Nat) (hev : CSem2.runC cs cfuel f ρ = some v) (p : Prog) (ext : Ext)
     (hfun : p.funcs[f.name]? = some (FuncInfo.of (Lower2.emitFunc cs startid f)))
@@ -226,32 +232,47 @@ theorem lower2_correct_in (cs : Bool) (startid : Nat) (f : CSem2.Func) (ρ : Lis
     split at hev
     · rename_i w h; cases hev; exact h
     · cases hev
-  exact LowerMach2.lower2_correct_prog cs startid f ρ v hwt henv hsmall cfuel hex p ext hfun hstack hsp
+  exact LowerMach2.lower2_correct_prog cs startid f ρ v hwt (LowerMach2.frag_of_noSwitch _ hns) henv hsmall cfuel
+    hex p ext hfun hstack hsp
 
 /-- **Semantic preservation for 𝔽₂.**  `cs`: signedness of plain `char` on the target; `startid`:
     value of `mkblock`'s counter before the function; `cfuel`: fuel of the C execution. -/
 theorem lower2_correct (cs : Bool) (startid : Nat) (f : CSem2.Func) (ρ : List Int) (v : Int)
-    (ext : Ext) (hwt : CSem2.WT f) (henv : EnvOK cs f.params ρ)
+    (ext : Ext) (hwt : CSem2.WT f) (hns : NoSwitch f) (henv : EnvOK cs f.params ρ)
     (hsmall : f.params.length + f.locals.length ≤ 1000000)
     (cfuel : Nat) (hev : CSem2.runC cs cfuel f ρ = some v) :
     ∃ fuel₀ r, RetRep f.ret v r ∧ ∀ fuel, fuel₀ ≤ fuel →
       runFunc (prog (Lower2.emitFunc cs startid f)) ext f.name (argsOf f.params ρ) fuel =
         ⟨#[], .ret (.scalar r)⟩ := by
-  refine lower2_correct_in cs startid f ρ v hwt henv hsmall cfuel hev _ ext
+  refine lower2_correct_in cs startid f ρ v hwt hns henv hsmall cfuel hev _ ext
     (prog_funcs (Lower2.emitFunc cs startid f)) ?_ ?_
   · rw [prog_initMem]
   · rw [prog_initMem]
 
 /-- `lower2_correct` for functions returning `int`, `unsigned`, `long`, …: the outcome is an equation. -/
 theorem lower2_correct_exact (cs : Bool) (startid : Nat) (f : CSem2.Func) (ρ : List Int) (v : Int)
-    (ext : Ext) (hwt : CSem2.WT f) (henv : EnvOK cs f.params ρ)
+    (ext : Ext) (hwt : CSem2.WT f) (hns : NoSwitch f) (henv : EnvOK cs f.params ρ)
     (hsmall : f.params.length + f.locals.length ≤ 1000000) (hret : 4 ≤ f.ret.size)
     (cfuel : Nat) (hev : CSem2.runC cs cfuel f ρ = some v) :
     ∃ fuel₀, ∀ fuel, fuel₀ ≤ fuel →
       runFunc (prog (Lower2.emitFunc cs startid f)) ext f.name (argsOf f.params ρ) fuel =
         ⟨#[], .ret (.scalar (argOf f.ret v).2)⟩ := by
-  obtain ⟨n, r, hr, h⟩ := lower2_correct cs startid f ρ v ext hwt henv hsmall cfuel hev
+  obtain ⟨n, r, hr, h⟩ := lower2_correct cs startid f ρ v ext hwt hns henv hsmall cfuel hev
   exact ⟨n, fun fuel hf => by rw [h fuel hf, retRep_exact hret hr]⟩
+
+/-- Stated, not proved yet (not claimed): preservation also for functions with `switch` (`case`/`default`
+    labels on the spine of the body, fall-through, `break`).  Missing: the case `switch_` of
+    `LowerMach2.sim_stmt` — the simulation of the `casesearch` ladder (`Lower2.ladder`, to be connected to
+    `C15.switch_w_correct`/`switch_l_correct`) and the lemma that the lowering of the statement after a
+    label is a suffix of the lowering of the body.  Everything else (structural facts `funcstmt_good'`
+    incl. `switch`, labels after jump statements in `sim_seq`, `sim_label`) is proved. -/
+def lower2_correct_full : Prop :=
+  ∀ (cs : Bool) (startid : Nat) (f : CSem2.Func) (ρ : List Int) (v : Int) (ext : Ext),
+    CSem2.WT f → EnvOK cs f.params ρ → f.params.length + f.locals.length ≤ 1000000 →
+    ∀ cfuel, CSem2.runC cs cfuel f ρ = some v →
+    ∃ fuel₀ r, RetRep f.ret v r ∧ ∀ fuel, fuel₀ ≤ fuel →
+      runFunc (prog (Lower2.emitFunc cs startid f)) ext f.name (argsOf f.params ρ) fuel =
+        ⟨#[], .ret (.scalar r)⟩
 
 /-- Stated, not proved (and not claimed): the emitted module passes the IL validator of C03 for every
     well-formed function of 𝔽₂, whatever the arguments.  Checked per generated function by
@@ -360,7 +381,7 @@ example : ∃ fuel₀, ∀ fuel, fuel₀ ≤ fuel →
       ⟨#[], .ret (.scalar ⟨.w, 26⟩)⟩ := by
   have hval : (argOf ex7.ret 26).2 = ⟨.w, 26⟩ := by decide
   rw [← hval]
-  exact lower2_correct_exact true 0 ex7 [20] 26 noExt (by decide)
+  exact lower2_correct_exact true 0 ex7 [20] 26 noExt (by decide) (by decide)
     ⟨rfl, by
       intro i t v ht hv
       match i, ht, hv with
@@ -373,7 +394,7 @@ example : ∃ fuel₀, ∀ fuel, fuel₀ ≤ fuel →
       ⟨#[], .ret (.scalar ⟨.w, 3⟩)⟩ := by
   have hval : (argOf ex6.ret 3).2 = ⟨.w, 3⟩ := by decide
   rw [← hval]
-  exact lower2_correct_exact true 0 ex6 [0] 3 noExt (by decide)
+  exact lower2_correct_exact true 0 ex6 [0] 3 noExt (by decide) (by decide)
     ⟨rfl, by
       intro i t v ht hv
       match i, ht, hv with
@@ -386,7 +407,7 @@ example : ∃ fuel₀, ∀ fuel, fuel₀ ≤ fuel →
       ⟨#[], .ret (.scalar ⟨.w, 603⟩)⟩ := by
   have hval : (argOf ex4.ret 603).2 = ⟨.w, 603⟩ := by decide
   rw [← hval]
-  exact lower2_correct_exact true 0 ex4 [100, 200] 603 noExt (by decide)
+  exact lower2_correct_exact true 0 ex4 [100, 200] 603 noExt (by decide) (by decide)
     ⟨rfl, by
       intro i t v ht hv
       match i, ht, hv with
